@@ -512,6 +512,8 @@ func (s *Scenario) buildWorld(W string, src []byte, image []byte) (*worldPaths, 
 		wp.LstArg = filepath.Join(W, "out", "list.lst")
 	case "parent_missing":
 		wp.LstArg = filepath.Join(W, "nolist", "list.lst")
+	case "same_as_src": // the list path names the source: must neither be read as a listing target nor destroy the image
+		wp.LstArg = wp.SrcArg
 	case "same_as_dst": // the list path names the output itself: still a creatable path
 		wp.LstArg = wp.DstArg
 	case "existing": // an existing listing from an earlier build
@@ -556,6 +558,8 @@ func (s *Scenario) argv(wp *worldPaths) []string {
 		return []string{"-d", wp.SrcArg, wp.DstArg}
 	case "d-only":
 		return []string{"-d"}
+	case "d-src":
+		return []string{"-d", wp.SrcArg}
 	case "v":
 		return []string{"-v"}
 	case "help":
@@ -628,13 +632,13 @@ func (s *Scenario) expect(imageClass string, nlines int, fired int) expectation 
 		return e
 	}
 	switch s.Shape {
-	case "none", "src":
-		e.Pin, e.Why = "16", "R1: fewer than two positionals"
+	case "none", "src", "d-only", "d-src":
+		e.Pin, e.Why = "16", "R1: fewer than two positionals (the -d switch is not a file argument)"
 		return e
 	case "src-dst":
 	case "src-dst-dashlst":
 	case "src-dst-lst":
-		if s.LstKind != "ok" && s.LstKind != "same_as_dst" && s.LstKind != "existing" {
+		if s.LstKind != "ok" && s.LstKind != "same_as_dst" && s.LstKind != "existing" && s.LstKind != "same_as_src" {
 			e.Why = "third positional not creatable: only G1/G2"
 			return e
 		}
